@@ -17,6 +17,7 @@ enum E8 : uint8 { A8 = 1, B8 = 2 };
 enum E16s : int16 { A16 = -1, B16 = 5 };
 flag F32 : uint32 { X = 1, Y = 2, Z = 0x80000000 };
 enum E24 : int24 { A24 = 1, B24 = -2 };
+struct other { struct hdr { uint8 hx; uint16 hy; } h; struct itm { uint8 ix; uint16 iy; } it[2]; uint8 t; };
 """
 
 # name -> field text with {n} = unique prefix; '|' separates nothing, text may hold several fields
@@ -68,6 +69,7 @@ KINDS = {
     "d_wchar": "uint8 {n}_n; wchar {n}[{n}_n];",
     "d_i24": "uint8 {n}_n; int24 {n}[{n}_n];",
     "d_expr": "uint8 {n}_a; uint8 {n}_b; char {n}[{n}_a * 2 + {n}_b];",
+    "d_expr2": "uint8 {n}_a; uint8 {n}_b; char {n}[{n}_a - {n}_b - 1];",
     "d_inner": "uint8 {n}_n; inner {n}[{n}_n];",
     "d_blk": "uint8 {n}_n; char {n}[{n}_n]; uint8 {n}_a; uint32 {n}_b;",
     "d_blk2": "uint8 {n}_n; uint16 {n}[{n}_n]; uint8 {n}_a[3]; int48 {n}_b;",
@@ -84,6 +86,7 @@ KINDS = {
     "dyn": "dyn {n};",
     "anon_s": "struct {{ uint8 {n}a; uint16 {n}b; }};",
     "named_s": "struct {{ uint16 {n}a; uint8 {n}b; }} {n};",
+    "same_hdr": "struct hdr {{ uint16 hy; uint8 hx; }} h; struct itm {{ uint16 iy; uint8 ix; }} it[2]; uint8 t;",
     "anon_bits": "struct {{ uint16 {n}a:4; uint16 {n}b:5; }};",
     "anon_s32": "struct {{ uint32 {n}w; }};",
     "anon_s3": "struct {{ uint8 {n}a; uint8 {n}b; uint8 {n}c; }};",
@@ -105,12 +108,15 @@ KINDS = {
     "b8_us": "uint8 {n}a:3; int8 {n}b:3; uint8 {n}c:2;",
     "bc8": "uint8 {n}a:4; char {n}b:4;",
     "bcc": "char {n}a:3; char {n}b:5;",
+    "bi16_whole": "int16 {n}x:16;",
+    "be16s_whole": "E16s {n}x:16;",
     "b8_whole": "uint8 {n}x:8;",
     "b32_whole": "uint32 {n}x:32;",
     "bf32_whole": "F32 {n}x:32;",
 }
 
 EOF_KINDS = {"eof_u8", "eof_u16", "eof_char"}
+SINGLE_ONLY = {"same_hdr"}  # fixed member names: only meaningful alone
 
 # quick alphabet: covers every (size, alignment) class and every reader/writer/generator branch
 QUICK = [
@@ -158,6 +164,8 @@ def valid_sequence(kinds):
     for k in kinds[:-1]:
         if k in EOF_KINDS:
             return False
+    if len(kinds) > 1 and any(k in SINGLE_ONLY for k in kinds):
+        return False
     return True
 
 
